@@ -657,6 +657,69 @@ static void c41Gate(long idx, vrt::Rng& r) {
                arrived ? spec.str() + std::to_string(idx) : "", clsv);
 }
 
+// Second gate scenario: the DIAGNOSTICS call is parked while it holds the backing-store lock, a
+// grower that needs a fresh slab arrives meanwhile (it bumps the lock word and spins until the
+// word reads 0), then the diagnostics call is released. The grower must complete: a release of the
+// lock that does not return the word to 0 wedges every later growth / diagnostics call.
+static void c41GateDiag(long idx, vrt::Rng& r) {
+  size_t cls = kSbaClasses[r.below(7)];
+  std::string key = "sba/N" + std::to_string(cls) + "/gate-diag-holds-lock";
+  J spec = J().kv("class", cls).kv("scenario", "diagnostics parked inside the lock, grower arrives, diagnostics released");
+  vrt::caseBegin(idx, key, spec);
+  vrt::watchdogArm();
+  std::vector<std::string> clsv{"class:" + std::to_string(cls), "gate-diag"};
+  g_bad = 0;
+  g_owner.clear();
+  if (!kSbaEnabled) {
+    vrt::watchdogDisarm();
+    vrt::caseEnd(J().kv("skipped", "small buffer allocator compiled out"), "", clsv);
+    return;
+  }
+  std::unique_ptr<Aut> aut = makeSba(cls);
+  Aut& a = *aut;
+  uint64_t tagBase = (static_cast<uint64_t>(idx) + 1) << 40;
+  std::atomic<uint64_t> ctr{1};
+  long existing = static_cast<long>(sbaApprox(cls) / cls);
+  std::vector<Blk> poolA;
+  ThreadLog logA;
+  vrt::gateArm(V::kSbaDiagHoldsLock);
+  std::atomic<int> dstate{0}, astate{0};
+  std::thread D([&]() {
+    (void)sbaApprox(cls);
+    dstate.store(1, std::memory_order_relaxed);
+  });
+  bool arrived = vrt::gateWaitArrived(V::kSbaDiagHoldsLock, 30000);
+  std::thread A;
+  if (arrived) {
+    A = std::thread([&]() {
+      // one more block than ever existed must be live: passes through the growth path, which has
+      // to wait for the diagnostics call to release the lock
+      for (long i = 0; i < existing + 1; ++i) {
+        doAlloc(a, poolA, logA, tagBase + ctr.fetch_add(1, std::memory_order_relaxed));
+        if ((i & 255) == 0) vrt::progress();
+      }
+      astate.store(1, std::memory_order_relaxed);
+    });
+    // give the grower time to reach the lock (not a verdict)
+    for (int k = 0; k < 200 && astate.load(std::memory_order_relaxed) == 0; ++k) usleep(500);
+    vrt::progress();
+  }
+  vrt::gateOpen(V::kSbaDiagHoldsLock);
+  D.join();
+  vrt::progress();
+  if (A.joinable()) A.join(); // a wedged lock leaves the grower spinning: watchdog livelock verdict
+  vrt::progress();
+  // a later diagnostics call and a later growth must also still work
+  (void)sbaApprox(cls);
+  vrt::hooksReset();
+  ThreadLog tail;
+  while (!poolA.empty()) doFree(a, poolA, tail, poolA.size() - 1);
+  vrt::watchdogDisarm();
+  if (arrived) clsv.push_back("diag-gate-reached");
+  else vrt::inconclusive("gate at kSbaDiagHoldsLock not reached");
+  vrt::caseEnd(J().kv("arrived", arrived).kv("allocs", logA.allocs), arrived ? spec.str() + std::to_string(idx) : "", clsv);
+}
+
 static void runC41() {
   const long n = vrt::g_args.getInt("n", vrt::thorough() ? 2400 : 320);
   const long gates = vrt::g_args.getInt("gates", vrt::thorough() ? 160 : 32);
@@ -664,6 +727,7 @@ static void runC41() {
     if (!vrt::selected(idx)) continue;
     vrt::Rng r = vrt::caseRng(idx);
     if (idx < n) c41Random(idx, r, idx >= n / 2);
+    else if ((idx - n) % 3 == 2) c41GateDiag(idx, r);
     else c41Gate(idx, r);
   }
 }
